@@ -79,6 +79,10 @@ pub struct Stats {
     pub absolute_seq_reset: bool,
     /// close() was accepted while written text was not segmentised yet (open known finding)
     pub closed_with_unsent: bool,
+    /// states in which a crafted segment was delivered
+    pub injected_in: std::collections::BTreeSet<&'static str>,
+    /// states in which close() was called (whatever it answered)
+    pub close_called_in: std::collections::BTreeSet<&'static str>,
 }
 
 pub struct World {
@@ -354,6 +358,21 @@ impl World {
                 if let Some(tcb) = self.sides[side].tcb.as_mut() {
                     let r = guard(|| tcb.close())?;
                     self.ev(format!("close {side} -> {r:?}"));
+                    if let Some(b) = &before {
+                        self.stats.close_called_in.insert(match b.state {
+                            State::SynSent => "close_in_SYN_SENT",
+                            State::SynReceived => "close_in_SYN_RECEIVED",
+                            State::Established => "close_in_ESTABLISHED",
+                            State::FinWait1 => "close_in_FIN_WAIT_1",
+                            State::FinWait2 => "close_in_FIN_WAIT_2",
+                            State::CloseWait => "close_in_CLOSE_WAIT",
+                            State::Closing => "close_in_CLOSING",
+                            State::LastAck => "close_in_LAST_ACK",
+                            State::TimeWait => "close_in_TIME_WAIT",
+                            #[allow(unreachable_patterns)]
+                            _ => "close_in_other",
+                        });
+                    }
                     if r == CloseResult::Ok {
                         if before.map(|b| b.unsent_text > 0).unwrap_or(false) {
                             self.stats.closed_with_unsent = true;
@@ -452,6 +471,19 @@ impl World {
             let mut must_reject = false;
             if crafted {
                 self.stats.injected += 1;
+                self.stats.injected_in.insert(match b.state {
+                    State::SynSent => "forged_in_SYN_SENT",
+                    State::SynReceived => "forged_in_SYN_RECEIVED",
+                    State::Established => "forged_in_ESTABLISHED",
+                    State::FinWait1 => "forged_in_FIN_WAIT_1",
+                    State::FinWait2 => "forged_in_FIN_WAIT_2",
+                    State::CloseWait => "forged_in_CLOSE_WAIT",
+                    State::Closing => "forged_in_CLOSING",
+                    State::LastAck => "forged_in_LAST_ACK",
+                    State::TimeWait => "forged_in_TIME_WAIT",
+                    #[allow(unreachable_patterns)]
+                    _ => "forged_in_other",
+                });
                 let seg_len = seg.text.len() as u32 + seg.header.ctl.syn() as u32 + seg.header.ctl.fin() as u32;
                 if is_sync(b.state) {
                     let left = b.rcv_nxt.wrapping_sub(1);
@@ -523,6 +555,7 @@ impl World {
             if crafted {
                 // a forged SYN is acceptable to a listening endpoint
                 self.stats.injected += 1;
+                self.stats.injected_in.insert("forged_in_LISTEN");
                 self.sides[to].read_tainted = true;
                 self.sides[from].read_tainted = true;
             }
@@ -551,6 +584,7 @@ impl World {
         } else {
             if crafted {
                 self.stats.injected += 1;
+                self.stats.injected_in.insert("forged_in_CLOSED");
             }
             let len = seg.text.len() as u32;
             let r = guard(|| segment_arrives_closed(seg.header, len, addr(to), addr(from)))?;
@@ -842,4 +876,98 @@ pub fn gen_inject(e: &mut Entropy, w: &World, to: usize) -> Op {
         _ => mss,
     };
     Op::Inject { to, flags, seq, ack, wnd, len }
+}
+
+/// A legitimate prelude that drives the connection to a chosen state before the generated operations start.
+#[derive(Debug, Clone)]
+pub struct PreludePlan {
+    /// 0 none, 1 ESTABLISHED, 2 FIN-WAIT-1, 3 FIN-WAIT-2 / CLOSE-WAIT, 4 CLOSING, 5 LAST-ACK, 6 TIME-WAIT
+    pub target: usize,
+    pub closer: usize,
+    pub write: [usize; 2],
+}
+
+impl PreludePlan {
+    pub fn decode(e: &mut Entropy, weights: &[u32; 7]) -> PreludePlan {
+        let target = e.weighted(weights);
+        let closer = e.choose(2);
+        let write = [if e.bool() { 1 + e.choose(3000) } else { 0 }, if e.bool() { 1 + e.choose(3000) } else { 0 }];
+        PreludePlan { target, closer, write }
+    }
+}
+
+pub fn run_prelude(w: &mut World, plan: &PreludePlan, ops: &mut Vec<Op>) -> Result<(), Failure> {
+    macro_rules! go {
+        ($op:expr) => {{
+            let op = $op;
+            ops.push(op.clone());
+            w.apply(&op)?;
+        }};
+    }
+    macro_rules! settle {
+        ($passes:expr) => {
+            for _ in 0..$passes {
+                go!(Op::Pump { side: 0 });
+                go!(Op::Pump { side: 1 });
+                for dir in 0..2 {
+                    let mut n = 0;
+                    while !w.wire[dir].is_empty() && n < 64 {
+                        go!(Op::Deliver { dir, i: 0 });
+                        n += 1;
+                    }
+                }
+            }
+        };
+    }
+    let (target, closer) = (plan.target, plan.closer);
+    if target >= 1 {
+        settle!(3); // handshake
+        for side in 0..2 {
+            if plan.write[side] > 0 {
+                go!(Op::Write { side, n: plan.write[side] });
+            }
+        }
+        settle!(3);
+    }
+    match target {
+        2 => {
+            // FIN-WAIT-1: the FIN is on the wire
+            go!(Op::Close { side: closer });
+            go!(Op::Pump { side: closer });
+        }
+        3 => {
+            // FIN-WAIT-2 / CLOSE-WAIT
+            go!(Op::Close { side: closer });
+            settle!(2);
+        }
+        4 => {
+            // CLOSING on both sides: the FINs cross, the ACKs for them are not sent yet
+            go!(Op::Close { side: 0 });
+            go!(Op::Close { side: 1 });
+            go!(Op::Pump { side: 0 });
+            go!(Op::Pump { side: 1 });
+            let n = [w.wire[0].len(), w.wire[1].len()];
+            for dir in 0..2 {
+                for _ in 0..n[dir] {
+                    go!(Op::Deliver { dir, i: 0 });
+                }
+            }
+        }
+        5 | 6 => {
+            // LAST-ACK (and FIN-WAIT-2 on the other side), then TIME-WAIT
+            go!(Op::Close { side: closer });
+            settle!(2);
+            go!(Op::Read { side: 1 - closer });
+            go!(Op::Close { side: 1 - closer });
+            go!(Op::Pump { side: 1 - closer });
+            if target == 6 {
+                let n = w.wire[1 - closer].len();
+                for _ in 0..n {
+                    go!(Op::Deliver { dir: 1 - closer, i: 0 });
+                }
+            }
+        }
+        _ => {}
+    }
+    Ok(())
 }
